@@ -385,7 +385,8 @@ def run_wm(desc):
             scan = refscan.scan(root, 'Manifest', '', o['hashes'])
             if scan.problems:
                 kinds = sorted({k for k, p, t in scan.problems})
-                known = all(k in ('stale-entry', 'wrong-hash-set')
+                known = all(k in ('stale-entry', 'wrong-hash-set',
+                                  'stale-manifest-ref')
                             and p in trigger for k, p, t in scan.problems)
                 return violation(
                     f'{what}: Manifests do not describe the tree: '
